@@ -223,5 +223,5 @@ def run(ctx):
         raise MachineryError('binding self-test: unexpected reference value')
     ctx.stage('binding-selftest', ok=True)
     ctx.cov['rule'] = ('6 prefixes x 12 prefix lengths x 243 boundary-pattern MACs (byte-level TLA+ model) and random 48-bit MACs x '
-                       'random prefixes <= /64; error classes for 8 prefix kinds x 5 MAC kinds; 7 host kinds x 5 ports x default; '
+                       'random prefixes <= /64; error classes for 8 prefix kinds x 5 MAC kinds; 15 host kinds x 5 ports x default; '
                        'URLs over 5 schemes x userinfo x 4 hosts x ports x paths x 6 query shapes x fragments x allow_fragments')
